@@ -152,7 +152,7 @@ def cases_funcs(rng, sizes=((4, 4), (8, 4), (8, 12)), NC=(1, 2)):
 def is_ph(t):
     return t is None or t.shape == torch.Size([]) or t.numel() == 0
 
-def cases_modules(rng, sizes, Js=(1, 2, 3), NC=(1, 2), masks='all', absent=True):
+def cases_modules(rng, sizes, Js=(1, 2, 3), NC=(1, 2), masks='all', absent=True, modes=(MODE_SYM,)):
     out = []
     nb, C = NC
     for rep in range(2):
@@ -162,44 +162,45 @@ def cases_modules(rng, sizes, Js=(1, 2, 3), NC=(1, 2), masks='all', absent=True)
         for J in Js:
             sk_list = list(itertools.product([0, 1], repeat=J)) if masks == 'all' and J <= 2 else [tuple([0] * J), tuple([1] + [0] * (J - 1)), tuple([0] * (J - 1) + [1])]
             for skips in sorted(set(sk_list)):
-                fwd = DTCWTForward(biort=(h0o, h1o), qshift=tuple(q), J=J, skip_hps=list(map(bool, skips)), include_scale=True)
-                fb = [buf(fwd.h0o), buf(fwd.h1o), buf(fwd.h0a), buf(fwd.h0b), buf(fwd.h1a), buf(fwd.h1b)]
-                assert fb[0] == [int(v) for v in h0o[::-1]] and fb[3] == [int(v) for v in q[1][::-1]], 'prep_filt / buffer order changed'
-                for (H, W) in sizes:
-                    X = rand_int(rng, (nb, C, H, W))
-                    r = call(lambda: fwd(T(X)))
-                    meta = dict(fn='DTCWTForward', H=H, W=W, J=J, skips=skips, Lq=Lq)
-                    if isinstance(r[0], str):
-                        out.append(Case(39, [MODE_SYM] + list(skips), fb, [X], r, meta)); continue
-                    yls, yhs = r
-                    exp = []
-                    for j in range(J):
-                        exp.append(A4(yls[j]))
-                        if not skips[j]:
-                            exp += planes(yhs[j], S2)
-                        elif not is_ph(yhs[j]):
-                            raise AssertionError('skipped level is not a placeholder')
-                    out.append(Case(39, [MODE_SYM] + list(skips), fb, [X], tuple(exp), meta))
-                    if any(skips):
-                        continue
-                    # inverse on an arbitrary pyramid of the same shapes; absent-level subsets
-                    inv = DTCWTInverse(biort=(h0o, h1o), qshift=(q[0], q[1], q[2], q[3]))
-                    gb = [buf(inv.g0o), buf(inv.g1o), buf(inv.g0a), buf(inv.g0b), buf(inv.g1a), buf(inv.g1b)]
-                    YL = rand_int(rng, yls[-1].shape); YH = [rand_int(rng, h.shape) for h in yhs]
-                    pres_list = [tuple([1] * J)] + ([p for p in itertools.product([0, 1], repeat=J) if not all(p)] if absent else [])
-                    for pres in pres_list:
-                        for has_low in ((1, 0) if (absent and any(pres)) else (1,)):
-                            hin = [T(h * S2) if p else None for p, h in zip(pres, YH)]
-                            y = call(lambda: (A4(inv((T(YL) if has_low else None, hin))),))
-                            ins = [YL if has_low else None]
-                            for p, h in zip(pres, YH):
-                                if p: ins += planes(T(h))
-                            out.append(Case(40, [MODE_SYM] + list(pres), gb, ins, y, dict(fn='DTCWTInverse', H=H, W=W, J=J, present=pres, low=has_low, Lq=Lq)))
-                    # a level given as a full-shape tensor that happens to be exactly zero is still a present level
-                    for jz in range(J):
-                        YZ = [h * (0 if j == jz else 1) for j, h in enumerate(YH)]
-                        y = call(lambda: (A4(inv((T(YL), [T(h * S2) for h in YZ]))),))
-                        ins = [YL]
-                        for h in YZ: ins += planes(T(h))
-                        out.append(Case(40, [MODE_SYM] + [1] * J, gb, ins, y, dict(fn='DTCWTInverse', H=H, W=W, J=J, present=tuple([1] * J), low=1, Lq=Lq, zero_level=jz)))
+              for mode in modes:
+                  fwd = DTCWTForward(biort=(h0o, h1o), qshift=tuple(q), J=J, skip_hps=list(map(bool, skips)), include_scale=True, mode='symmetric' if mode == MODE_SYM else 'zero')
+                  fb = [buf(fwd.h0o), buf(fwd.h1o), buf(fwd.h0a), buf(fwd.h0b), buf(fwd.h1a), buf(fwd.h1b)]
+                  assert fb[0] == [int(v) for v in h0o[::-1]] and fb[3] == [int(v) for v in q[1][::-1]], 'prep_filt / buffer order changed'
+                  for (H, W) in sizes:
+                      X = rand_int(rng, (nb, C, H, W))
+                      r = call(lambda: fwd(T(X)))
+                      meta = dict(fn='DTCWTForward', H=H, W=W, J=J, skips=skips, Lq=Lq, mode=mode)
+                      if isinstance(r[0], str):
+                          out.append(Case(39, [mode] + list(skips), fb, [X], r, meta)); continue
+                      yls, yhs = r
+                      exp = []
+                      for j in range(J):
+                          exp.append(A4(yls[j]))
+                          if not skips[j]:
+                              exp += planes(yhs[j], S2)
+                          elif not is_ph(yhs[j]):
+                              raise AssertionError('skipped level is not a placeholder')
+                      out.append(Case(39, [mode] + list(skips), fb, [X], tuple(exp), meta))
+                      if any(skips) or mode != MODE_SYM:
+                          continue
+                      # inverse on an arbitrary pyramid of the same shapes; absent-level subsets
+                      inv = DTCWTInverse(biort=(h0o, h1o), qshift=(q[0], q[1], q[2], q[3]))
+                      gb = [buf(inv.g0o), buf(inv.g1o), buf(inv.g0a), buf(inv.g0b), buf(inv.g1a), buf(inv.g1b)]
+                      YL = rand_int(rng, yls[-1].shape); YH = [rand_int(rng, h.shape) for h in yhs]
+                      pres_list = [tuple([1] * J)] + ([p for p in itertools.product([0, 1], repeat=J) if not all(p)] if absent else [])
+                      for pres in pres_list:
+                          for has_low in ((1, 0) if (absent and any(pres)) else (1,)):
+                              hin = [T(h * S2) if p else None for p, h in zip(pres, YH)]
+                              y = call(lambda: (A4(inv((T(YL) if has_low else None, hin))),))
+                              ins = [YL if has_low else None]
+                              for p, h in zip(pres, YH):
+                                  if p: ins += planes(T(h))
+                              out.append(Case(40, [MODE_SYM] + list(pres), gb, ins, y, dict(fn='DTCWTInverse', H=H, W=W, J=J, present=pres, low=has_low, Lq=Lq)))
+                      # a level given as a full-shape tensor that happens to be exactly zero is still a present level
+                      for jz in range(J):
+                          YZ = [h * (0 if j == jz else 1) for j, h in enumerate(YH)]
+                          y = call(lambda: (A4(inv((T(YL), [T(h * S2) for h in YZ]))),))
+                          ins = [YL]
+                          for h in YZ: ins += planes(T(h))
+                          out.append(Case(40, [MODE_SYM] + [1] * J, gb, ins, y, dict(fn='DTCWTInverse', H=H, W=W, J=J, present=tuple([1] * J), low=1, Lq=Lq, zero_level=jz)))
     return out
